@@ -1,6 +1,6 @@
 (* C12 — Receive Maximum flow control.  Statements only; proofs in Conn/IdsQuota.v.
    Nothing else may be added to this file. *)
-From MQ Require Import Base.Prelude Conn.Types Conn.ConnRecord Conn.Step Corr.ConnTrace Conn.IdsQuota Conn.Run Conn.Own Conn.OwnStep Conn.Witness Conn.PairQos Conn.PairQos5 Conn.PairSeq Conn.PairSeq5 Conn.PairConc Conn.PairConc5 Conn.PairBi Conn.PairBi5.
+From MQ Require Import Base.Prelude Conn.Types Conn.ConnRecord Conn.Step Corr.ConnTrace Conn.IdsQuota Conn.Run Conn.Own Conn.OwnStep Conn.Witness Conn.PairQos Conn.PairQos5 Conn.PairSeq Conn.PairSeq5 Conn.PairConc Conn.PairConc5 Conn.PairBi Conn.PairBi5 Conn.PairManualSeq5.
 
 (* the reported vacancy is M minus the count, saturating at zero: it never wraps or panics, for every
    M and every count *)
@@ -68,6 +68,19 @@ Theorem C12_two_way_counters : forall gA gB l s,
     (forall m, c_send_max (eb s') = Some m -> c_send_count (eb s') = flight (vBA s') /\ flight (vBA s') <= m).
 Proof. exact two_way5_counters. Qed.
 Print Assumptions C12_two_way_counters.
+
+(* with MANUAL responses (Conn/PairManualSeq5.v): after any sequence of exchanges in which the applications send every
+   acknowledgement themselves the vacancy is the full maximum again and nothing is outstanding at the receiver — the
+   receiver's slot is given back by the send call that carries its application's PUBACK / PUBCOMP *)
+Theorem C12_vacancy_returns_after_manual_sequence : forall gs gr ps cs cr,
+  pair_inv5_m gs gr cs cr -> Forall (fun p => v5_pub p 1 \/ v5_pub p 2) ps ->
+  match run_seq5_m gs gr cs cr ps with
+  | Done cs' cr' d => vacancy cs' = c_send_max cs' /\ c_publish_recv cr' = []
+  | AppPre => True
+  | Fail => False
+  end.
+Proof. exact manual_vacancy_returns. Qed.
+Print Assumptions C12_vacancy_returns_after_manual_sequence.
 
 (* C12_partial: the invariant "publish_send_count = number of incomplete outbound QoS>0 exchanges of
    this connection, including retransmitted stored ones" over all histories is checked by the monitor
